@@ -1,5 +1,6 @@
 import IceProofs.AgentC06Forms
 import IceTie.AgentRemote
+import IceTie.Order
 /-!
 # C06 — candidate and pair bookkeeping stays consistent; Restart leaves no residue
 
@@ -522,5 +523,28 @@ example : (IceGen.agent_addRemoteCandidate true [false, false] true 2 true true 
     IceGen.agent_addRemoteCandidate true [false, true] true 0 true true true = ([], true) := by decide
 example : IceTie.AgentRemote.AddrWF tL ∧ IceTie.AgentRemote.AddrWF tRp ∧ tL.taEqual tRp = false ∧ tRp.taEqual tRp = true := by
   refine ⟨⟨fun _ => by decide, fun h => by simp [tL, isTCP] at h⟩, ⟨fun _ => by decide, fun h => by simp [tRp, isTCP] at h⟩, by decide, by decide⟩
+
+/-- the task of `Agent.Restart` (agent.go, regenerated in effect mode): cancel gathering, release the mux ufrag, set the new
+local credentials, clear the remote credentials, gathering state New, empty checklist / pair index / pending transactions, clear the
+selection, delete all candidates, a fresh selector — and only then, unless the agent is still New, the state goes to Checking
+(Restart leaves no residue); the model's `doRestart` is the same sequence -/
+theorem C06_code_restart_task (ufrag pwd : String) (connState : Int64) :
+    IceGen.agent_Restart_task ufrag pwd connState
+      = [IceTie.Order.c "gatherCandidateCancel", IceTie.Order.c "removeUfragFromMux",
+         IceModel.Eff.set "a.localUfrag" (IceModel.Val.s ufrag), IceModel.Eff.set "a.localPwd" (IceModel.Val.s pwd),
+         IceModel.Eff.set "a.remoteUfrag" (IceModel.Val.s ""), IceModel.Eff.set "a.remotePwd" (IceModel.Val.s ""),
+         IceModel.Eff.set "a.gatheringState" (IceModel.Val.i 1),
+         IceModel.Eff.set "a.checklist" (IceModel.Val.s "empty"), IceModel.Eff.set "a.pairsByID" (IceModel.Val.s "empty"),
+         IceModel.Eff.set "a.pendingBindingRequests" (IceModel.Val.s "empty"),
+         IceTie.Order.c1 "setSelectedPair" (IceModel.Val.s "nil"), IceTie.Order.c "deleteAllCandidates", IceTie.Order.c "setSelector"]
+        ++ (if connState == 1 then [] else [IceTie.Order.c1 "updateConnectionState" (IceModel.Val.i 2)]) ∧
+    (∀ (a : Agent) (now : Nat), a.doRestart now ufrag pwd =
+      let a1 : Agent := { (({ a with localUfrag := ufrag, localPwd := pwd, remoteUfrag := "", remotePwd := "" } : Agent).wipe).resetSelector now
+                          with generation := a.generation + 1 }
+      if a1.connState != .new then a1.setConnState .checking else (a1, [])) :=
+  ⟨IceTie.Order.restartTask_tie ufrag pwd connState, fun a now => IceTie.Order.doRestart_order a now ufrag pwd⟩
+
+example : (IceGen.agent_Restart_task "u" "p" 3).getLast? = some (IceModel.Eff.call "updateConnectionState" [IceModel.Val.i 2]) ∧
+    (IceGen.agent_Restart_task "u" "p" 1).getLast? = some (IceModel.Eff.call "setSelector" []) := by decide
 
 end IceProps.C06
